@@ -24,6 +24,8 @@ CONSTANTS TreeSet,        \* the source trees the environment may switch between
           \* protocol choices, set to what /repo does
           CombinerClearsQueueOnFailedFlush,
           GcStopsOnUnreadableHunk,
+          BkRechecksLock,   \* backup looks at the gc lock again after creating its band (TRUE since c3178ec)
+          AllowConcurrent,  \* a backup and a delete/gc may run at the same time
           Hash(_)         \* the name of a block with this content (injective)
 
 VARIABLES fs,       \* the archive
@@ -77,7 +79,7 @@ Mutate ==
     /\ UNCHANGED <<fs, bk, gc, snap, partial, cnt>>
 
 StartBackup ==
-    /\ Quiet
+    /\ IF AllowConcurrent THEN bk.pc = "Idle" ELSE Quiet
     /\ cnt.backups < MaxBackups
     /\ \E o \in OptSet :
          bk' = [pc |-> "CheckLock", o |-> o, band |-> -1, basis |-> <<>>, know |-> {},
@@ -145,7 +147,7 @@ BkWriteHead ==
     /\ \E F \in BOOLEAN : MayFail(F) /\ CountFault(F) /\
          IF F THEN /\ bk' = Abort(MarkFaulty(bk, F), "err") /\ UNCHANGED fs
          ELSE /\ fs' = SetFile(fs, Key("Head", bk.band, -1, ""), MarkPayload)
-              /\ bk' = [bk EXCEPT !.pc = "Recheck"]
+              /\ bk' = [bk EXCEPT !.pc = IF BkRechecksLock THEN "Recheck" ELSE "ListBlocks"]
     /\ UNCHANGED <<src, gc, snap, partial>>
 
 \* the second look at the gc lock, after the band exists
@@ -300,7 +302,7 @@ BkNext == \/ BkCheckLock \/ BkListBands \/ BkMkBand \/ BkWriteHead \/ BkRecheck 
 (* Delete / gc.                                                            *)
 (***************************************************************************)
 StartDelete ==
-    /\ Quiet
+    /\ IF AllowConcurrent THEN gc.pc = "Idle" ELSE Quiet
     /\ cnt.deletes < MaxDeletes
     /\ \E D \in SUBSET Bands(fs) : \E dry \in BOOLEAN :
          gc' = [pc |-> "ListBands", del |-> D, dry |-> dry, last |-> -1, keep |-> {}, toread |-> {},
@@ -474,6 +476,10 @@ Inv_ValidateAdequate ==
                 LET f == ApplyDamage(fs, d) IN
                 (DamageMatters(fs, f) /\ FormatViol(f) # {}) =>
                     (ValidatorReports(f, FALSE) /\ (d.how = "delete" => ValidatorReports(f, TRUE)))
+
+\* C06: once a concurrent backup and delete/gc have both finished, every complete version is whole
+Inv_QuiescentNoLoss ==
+    Quiet => (Dangling(fs, CompleteBands(fs)) = {} /\ SnapBroken(fs, snap, partial) = {})
 
 \* C07 as an action property: a backup never changes or removes an existing non-empty file,
 \* and a new band id is above every existing one
